@@ -15,7 +15,8 @@ re-reads the flag) and the object is pushed through
     in every target state: absent, absent + overwrite=True, nested missing directories (absolute and relative,
     str and pathlib.Path), bare file name with cwd = scratch, present + overwrite=False (must fail, old bytes
     intact), present + overwrite=True (old multi-HDU file larger - or smaller - than the new one; the result must
-    be byte-identical to a fresh write),
+    be byte-identical to a fresh write); Imaging additionally with only one of the later files present and
+    overwrite=False (must fail, that file intact),
   * multi-extension   2..4 objects' hdu_for_output assembled by astropy into one file, each read with hdu=k
                       (Imaging: data_hdu / noise_map_hdu / psf_hdu of one file),
   * Mask2D.from_fits(invert=True), (resized_mask_shape = shape +- 2*(a, b)): centre block / trimmed block.
@@ -85,14 +86,14 @@ ID = "C16"
 NO = 16
 RULE = ("a case = (class, flip_for_ds9, generated object): shape stratum x value family x mask family x pixel-scale "
         "family drawn from rng(seed, 16, class, index) - the same object is run under flip off and flip on; per case "
-        "the HDU path, seven target states of the file path (two path kinds), a multi-extension file and (Mask2D) "
+        "the HDU path, seven target states of the file path (Imaging: eight; str and pathlib paths), a multi-extension file and (Mask2D) "
         "invert/resized reads are executed. distinct = hash of (class, flip, expected native values, mask, pixel "
         "scales); non-trivial = unmasked values pairwise distinct (masks: both booleans present) and, for 2-D shapes "
         "with >= 2 rows, flipud(expected) != expected (1-D: reversed(expected) != expected), so an orientation error "
         "cannot hide; symmetric / constant draws are executed but counted trivial")
-BOUNDS = {"quick": "6 classes x 2 flip settings x 72 objects, shapes <= 12x15 plus the 359/360/361-value block-boundary "
+BOUNDS = {"quick": "6 classes x 2 flip settings x 48 objects, shapes <= 12x15 plus the 359/360/361-value block-boundary "
                    "shapes, <= 4 HDUs per multi-extension file",
-          "thorough": "6 classes x 2 flip settings x 1020 objects, same strata"}
+          "thorough": "6 classes x 2 flip settings x 840 objects, same strata"}
 EXHAUSTIVE = {"quick": False, "thorough": False}
 ASSUMPTIONS = ["A2: astropy is trusted to write/read float64 images and header cards; it is also the independent reader of "
                "the raw on-disk orientation",
@@ -107,8 +108,9 @@ QUICK_JOBS = 16
 
 CLASSES = ("Array2D", "Mask2D", "Kernel2D", "Array1D", "Mask1D", "Imaging")
 STATES = ("absent", "absent_overwrite", "nested_abs", "nested_rel", "bare", "present_refused", "present_overwrite")
-PER = {"quick": 72, "thorough": 1020}
-BATCH = {"quick": 18, "thorough": 60}
+PER = {"quick": 48, "thorough": 840}
+WEIGHT = {"Array2D": 1.0, "Mask2D": 0.9, "Kernel2D": 1.1, "Array1D": 0.8, "Mask1D": 0.65, "Imaging": 1.4}
+BATCH = {"quick": 12, "thorough": 60}
 
 MIN_MONITORS = {"*": dict(
     {"roundtrip.hdu.%s" % c: 1 for c in CLASSES[:5]},
@@ -132,7 +134,7 @@ def plan(tier, seed):
         for flip in (0, 1):
             for s in range(0, PER[tier], BATCH[tier]):
                 units.append({"cls": c, "ci": ci, "flip": flip, "start": s, "stop": min(PER[tier], s + BATCH[tier]),
-                              "w": (3.0 if c == "Imaging" else 1.0) * BATCH[tier]})
+                              "w": WEIGHT[c] * BATCH[tier]})
     return units
 
 
@@ -280,7 +282,7 @@ def gen_scales(rng, i, dim=2):
 
 def gen_mask2d(rng, shape, i, allow_none=True):
     H, W = shape
-    if allow_none and i % 3 == 0:
+    if allow_none and rng.random() < 0.34:      # drawn, not i-periodic: independent of the scale / path-kind cycles
         return np.zeros(shape, bool), "all_unmasked"
     for _ in range(6):
         m, fam = gen.random_mask(rng, H, W)
@@ -290,7 +292,7 @@ def gen_mask2d(rng, shape, i, allow_none=True):
 
 
 def gen_mask1d(rng, n, i, allow_none=True):
-    if allow_none and i % 3 == 0:
+    if allow_none and rng.random() < 0.34:
         return np.zeros(n, bool), "all_unmasked"
     m = rng.random(n) < 0.4
     if m.all():
@@ -319,12 +321,13 @@ def build_part(aa, cls, rng, i, shape=None):
         if cls == "Mask1D":
             return Part(cls, mask, m.copy(), arg, sc, sfam, info={"shape": "1d:%d" % n, "mask": mfam})
         v, vfam = gen_values(rng, n, i)
-        store_native = bool(i % 2)
-        if mfam == "all_unmasked" and i % 2 == 0:
+        store_native = bool(rng.random() < 0.5)
+        if mfam == "all_unmasked" and rng.random() < 0.5:
             obj = aa.Array1D.no_mask(values=v.copy(), pixel_scales=arg)
         else:
             # native 1-D input is handed over zero-filled: whether the *constructor* zeroes masked cells of a native-stored
-            # 1-D input is C01's question (it does not), not a claim of the FITS round trip
+            # 1-D input is C01's question (it does not, unlike Array2D), not a claim of the FITS round trip. The round trip
+            # reproduces `native` faithfully either way; the observation is counted in case_single, not dropped.
             obj = aa.Array1D(values=(np.where(m, 0.0, v) if store_native else v[~m].copy()), mask=mask, store_native=store_native)
         return Part(cls, obj, np.where(m, 0.0, v), arg, sc, sfam, info={"shape": "1d:%d" % n, "mask": mfam, "values": vfam})
     (H, W), shfam = gen_shape(rng, i) if shape is None else (shape, "given")
@@ -338,10 +341,10 @@ def build_part(aa, cls, rng, i, shape=None):
         return Part(cls, aa.Kernel2D.no_mask(values=v.copy(), pixel_scales=arg), v.copy(), arg, sc, sfam,
                     info={"shape": shfam, "values": vfam, "mask": "none"})
     m, mfam = gen_mask2d(rng, (H, W), i)
-    if mfam == "all_unmasked" and i % 2 == 0:
+    if mfam == "all_unmasked" and rng.random() < 0.5:
         obj = aa.Array2D.no_mask(values=v.copy(), pixel_scales=arg)
     else:
-        store_native = bool(i % 2)
+        store_native = bool(rng.random() < 0.5)
         obj = aa.Array2D(values=(v.copy() if store_native else v[~m].copy()), mask=aa.Mask2D(mask=m.copy(), pixel_scales=arg),
                          store_native=store_native)
     return Part(cls, obj, np.where(m, 0.0, v), arg, sc, sfam, info={"shape": shfam, "values": vfam, "mask": mfam})
@@ -360,7 +363,7 @@ def build_imaging(aa, rng, i):
     if i % 4 == 3:
         K = rng.permutation(K.ravel()).reshape(ky, kx)
     with_psf = i % 5 != 4
-    pre_norm = bool(i % 2)
+    pre_norm = bool(rng.random() < 0.5)
     psf = aa.Kernel2D.no_mask(values=K.copy(), pixel_scales=arg) if with_psf else None
     ds = aa.Imaging(data=aa.Array2D(values=v.copy(), mask=mask), noise_map=aa.Array2D(values=nv.copy(), mask=mask),
                     psf=psf, use_normalized_psf=pre_norm)
@@ -751,6 +754,15 @@ def case_single(ctx, cls, rng, i, flip, root, cdir):
         return
     tags = []
     fam = "aniso" if part.scale_family.startswith("aniso") else "iso"
+    if cls == "Array1D" and (part.exp == 0).any() and i % 2:
+        # counted observation (C01's domain, see build_part): a native-stored masked Array1D built from values that are
+        # non-zero in masked cells keeps them in `native`, so such an object would be written with them
+        mm = part.exp == 0
+        probe = aa.Array1D(values=np.where(mm, 7.0, part.exp), mask=aa.Mask1D(mask=mm.copy(), pixel_scales=part.scales_arg), store_native=True)
+        if (_np(probe.native)[mm] != 0).any():
+            ctx.skipped["array1d_native_stored_input_keeps_nonzero_masked_cells(constructor,C01)"] += 1
+            ctx.note("Array1D(values=native, mask, store_native=True).native keeps non-zero values in masked cells (Array2D zeroes "
+                     "them); C16 therefore builds native-stored 1-D arrays from zero-filled input")
     # ---- HDU path
     okh, h = _guarded(ctx, "write.succeeds", lambda: part.obj.hdu_for_output)
     if okh:
